@@ -141,7 +141,10 @@ def gen_case(rng, seed):
     # a division is only used where the draws are dyadic (no correlation applied): with a rational, non-dyadic factor a
     # denominator that is exactly 0 in Q is 1e-17 in floating point, i.e. a finite outcome (rounding, not modelled)
     allow_div = (not small) and not kind.startswith("pd") and rng.random() < 0.5
-    case = {"seed": seed, "okind": rng.choice(["uniform", "uniform", "two", "peak", "coarse"]),
+    zero_pos = []
+    if k == 3 and kind == "pd-one-pair" and rng.random() < 0.6:
+        zero_pos = [({0, 1, 2} - {corr_pos[0][0], corr_pos[0][1]}).pop()]
+    case = {"seed": seed, "okind": rng.choice(["uniform", "uniform", "two", "peak", "coarse"]), "zero_pos": zero_pos,
             "g": rng.choice([4, 5, 6, 8] if small else [4, 6, 8, 12, 16]),
             "sources": sources, "corr": [], "corr_pos": corr_pos, "corr_kind": kind,
             "defs": mc.gen_defs(rng, k, allow_div=allow_div, depth=2 if (small or k == 3) else 3, require_all=True),
@@ -171,6 +174,8 @@ def gen_case(rng, seed):
 
 def features(case, run):
     tags = {"corr:" + case["corr_kind"], "sources={}".format(len(run["order"]))}
+    if case.get("zero_pos") and any(float.fromhex(e) == 0.0 for _, e, _ in run["srcs"]):
+        tags.add("zero-uncertainty-source-next-to-correlated-pair")
     if any(mc.tree_has(d, "div", case["defs"]) for d in case["defs"]):
         tags.add("division")
     if any(s["kind"] == "repeated" for s in case["sources"]):
@@ -560,14 +565,104 @@ def gen_stat_case(rng):
             "defs": defs, "N": 200000, "np_seed": rng.getrandbits(31)}
 
 
-CHECKS = {"design": check_design, "samerow": check_samerow, "statistical": check_statistical}
+def check_sizes(case):
+    """N is the configured sample size, per quantity if one was assigned, global otherwise -- whatever the history of
+    assignments (pin to a size equal to the global one of the moment, change the global size, recalculate ...).
+    Sizes are checked right after a recalculation / assignment (a later change of the global size alone leaves an
+    already drawn set, by design)."""
+    q = mc._q()
+    script = mc.Script(case["seed"], "uniform")
+    with warnings.catch_warnings():
+        warnings.simplefilter("ignore")
+        with mc.patched_normal(script):
+            try:
+                mc.reset_globals()
+                q.set_error_method(q.ErrorMethod.MONTE_CARLO)
+                glob = case["g"]
+                q.set_monte_carlo_sample_size(glob)
+                meas = [mc.make_measurement(s) for s in case["sources"]]
+                objs = []
+                for d in case["defs"]:
+                    objs.append(mc.build_value(d, meas, objs))
+                res = objs[-1]
+                own = 0
+                for idx, st in enumerate(case["steps"]):
+                    if st[0] == "global":
+                        glob = st[1]
+                        q.set_monte_carlo_sample_size(glob)
+                        continue
+                    if st[0] == "pin":
+                        own = st[1]
+                        res.mc.sample_size = own
+                    elif st[0] == "reset":
+                        own = 0
+                        res.mc.reset_sample_size()
+                    elif st[0] == "recalc":
+                        res.recalculate()
+                    want = own if own else glob
+                    got_cfg = res.mc.sample_size
+                    S = [float(x) for x in res.mc.samples()]
+                    value, error = float(res.value), float(res.error)
+                    how = "own size {}".format(own) if own else "no own size"
+                    if got_cfg != want:
+                        return "step {} {}: the configured sample size reads {}, expected {} ({}, global size {})".format(
+                            idx, st, got_cfg, want, how, glob)
+                    if len(S) != want:
+                        return "step {} {}: the result is built from {} draws, expected N = {} ({}, global size {})".format(
+                            idx, st, len(S), want, how, glob)
+                    if len(S) >= 2:
+                        xs = [Fraction(x) for x in S]
+                        m = sum(xs) / len(xs)
+                        var = sum((x - m) ** 2 for x in xs) / (len(xs) - 1)
+                        if not close(Fraction(value), m) or not close(Fraction(error) ** 2, var, Fraction(1, 10 ** 7)):
+                            return "step {} {}: value / uncertainty are not the mean / ddof-1 deviation of the {} draws".format(
+                                idx, st, len(S))
+            finally:
+                mc.reset_globals()
+    return None
+
+
+def gen_sizes_case(rng, seed):
+    k = rng.choice([1, 2])
+    sizes = [5, 8, 12, 20, 33]
+    g0 = rng.choice(sizes)
+    other = lambda x: rng.choice([s for s in sizes if s != x])
+    g1 = other(g0)
+    shape = rng.randrange(6)
+    if shape == 0:      # pin to the global size of the moment, change the global size, recalculate
+        steps = [["pin", g0], ["global", g1], ["recalc"]]
+    elif shape == 1:    # the other order: change the global size first, then pin to the NEW global size, change it back
+        steps = [["global", g1], ["pin", g1], ["global", g0], ["recalc"]]
+    elif shape == 2:    # pinned, then un-pinned: follows the global size again
+        steps = [["pin", g0], ["global", g1], ["recalc"], ["reset"], ["global", other(g1)], ["recalc"]]
+    elif shape == 3:    # pin to a different size, then re-pin to the current global one
+        steps = [["pin", g1], ["pin", g0], ["global", g1], ["recalc"]]
+    elif shape == 4:    # never pinned
+        steps = [["recalc"], ["global", g1], ["recalc"]]
+    else:
+        steps = []
+        for _ in range(rng.randint(3, 7)):
+            r = rng.random()
+            if r < 0.35:
+                steps.append(["pin", rng.choice(sizes + [0])])
+            elif r < 0.65:
+                steps += [["global", rng.choice(sizes)], ["recalc"]]
+            elif r < 0.8:
+                steps.append(["reset"])
+            else:
+                steps.append(["recalc"])
+    return {"seed": seed, "g": g0, "sources": [mc.gen_source(rng, repeated_ok=False, positive_error=True) for _ in range(k)],
+            "defs": mc.gen_defs(rng, k, allow_div=False, depth=2, require_all=False), "steps": steps}
+
+
+CHECKS = {"design": check_design, "samerow": check_samerow, "statistical": check_statistical, "sizes": check_sizes}
 
 
 def search(ctx, suspects, budget):
     t0 = time.time()
     rng = ctx.rng
     out, seen = [], set()
-    counts = {"design": 0, "samerow": 0, "statistical": 0}
+    counts = {"design": 0, "samerow": 0, "statistical": 0, "sizes": 0}
 
     def report(kind, case, why):
         key = kind + ":" + why.split(" ")[0] + why[-30:] if kind != "statistical" else kind
@@ -604,6 +699,15 @@ def search(ctx, suspects, budget):
                 except Exception:  # noqa
                     pass
             report("samerow", small, check_samerow(small) or why)
+    while len(out) < 5 and counts["sizes"] < ctx.n(90, 900):
+        c = gen_sizes_case(rng, "z{}-{}".format(seedbase, counts["sizes"]))
+        counts["sizes"] += 1
+        why = check_sizes(c)
+        if why:
+            def fails(steps, c=c):
+                return check_sizes(dict(c, steps=steps)) is not None
+            small = dict(c, steps=shrink_list(c["steps"], fails))
+            report("sizes", small, check_sizes(small) or why)
     if not ctx.quick:
         n_stat = 3 if not suspects else 6
         for _ in range(n_stat):
@@ -612,8 +716,8 @@ def search(ctx, suspects, budget):
             why = check_statistical(c)
             if why:
                 report("statistical", c, why)
-    ctx.notes.append("oracle: {} whitened-design cases, {} exact-sample cases, {} statistical cases (N = 200000, 6 sigma)".format(
-        counts["design"], counts["samerow"], counts["statistical"]))
+    ctx.notes.append("oracle: {} whitened-design cases, {} exact-sample cases, {} size histories, {} statistical cases "
+                     "(N = 200000, 6 sigma)".format(counts["design"], counts["samerow"], counts["sizes"], counts["statistical"]))
     return out
 
 
